@@ -669,9 +669,15 @@ func ruleWInsc(c *Ctx) {
 					f := fieldName(fa.X.Type(), fa.Field)
 					t := canonTerm(env.Term(st.Val))
 					var i int64
-					if k := strings.LastIndex(t, "["); k >= 0 {
-						if _, err := fmt.Sscanf(t[k:], "[%d]", &i); err == nil && f != "LockingScriptPrefix" {
-							reader[i] = "field:" + f
+					if k := strings.LastIndex(t, "["); k >= 0 && f != "LockingScriptPrefix" {
+						if _, err := fmt.Sscanf(t[k:], "[%d]", &i); err == nil {
+							// the part itself (or its string conversion), nothing applied to it
+							raw := fmt.Sprintf("bscript.DecodeParts(*p0)#0[%d]", i)
+							if t == raw || t == "string("+raw+")" {
+								reader[i] = "field:" + f
+							} else {
+								reader[i] = "field:" + f + " transformed by " + shorten(t, 60)
+							}
 						}
 					}
 				}
